@@ -64,3 +64,6 @@ Definition model_mutate_one (incl : bool) (op : Z) (x : expr) (d v : jv) : bytes
     if (op =? 0) || (op =? 1) then set_comparable six x d else true in
   (if comparable then x63 else x75) :: x20 ::
   join_semi (map (fun r => show (canon r)) (one_candidates six (if 3 <=? op then 3 else op) x v (modifier (op - 3) v) d)).
+
+Require Import Ojg.Jp.Str.
+Definition model_jpstr (s : bytes) (delim : byte) : bytes := hex_of_bytes (append_string s delim).
